@@ -24,7 +24,7 @@ INDEX = {
    {"name": "VerifH02PointOpsBTree", "common": {"max_depth": 2000}, "quick": {"bounds": {"steps": 3, "ops": 2, "keys": 2}}, "thorough": {"bounds": {"steps": 4, "ops": 3, "keys": 2}}},
  ]},
  "C03": {"package": "./roaring", "harnesses": [
-   {"name": "VerifH03Isolation", "common": {"max_depth": 3000}, "quick": {"bounds": {"array": 2, "runs": 1, "words": 1, "bases": 1, "wordmask6": 1, "runlen": 2, "derivations": 7, "mutations": 5, "kinds": 1, "btyps": 1}}, "thorough": {"bounds": {"array": 2, "runs": 1, "words": 1, "bases": 1, "wordmask6": 1, "runlen": 2, "derivations": 7, "mutations": 7, "kinds": 2, "btyps": 2}, "max_paths": 600000}},
+   {"name": "VerifH03Isolation", "common": {"max_depth": 3000}, "quick": {"bounds": {"atyps": 1, "array": 2, "runs": 1, "words": 1, "bases": 1, "wordmask6": 1, "runlen": 2, "derivations": 7, "mutations": 5, "kinds": 1, "btyps": 1}}, "thorough": {"bounds": {"array": 2, "runs": 1, "words": 1, "bases": 1, "wordmask6": 1, "runlen": 2, "derivations": 7, "mutations": 7, "kinds": 2, "btyps": 2}, "max_paths": 600000}},
  ]},
  "C04": {"package": "./roaring", "harnesses": [
    {"name": "VerifH04RoundTrip", "common": {"max_depth": 2000}, "quick": {"bounds": {"containers": 1, "array": 2, "runs": 2, "words": 1, "bases": 1, "wordmask6": 1, "keychoices": 2}}, "thorough": {"bounds": {"containers": 2, "array": 3, "runs": 3, "words": 1, "bases": 2, "wordmask6": 1, "keychoices": 2}}},
@@ -68,6 +68,9 @@ INDEX = {
    {"name": "VerifH17MaxReducer", "quick": {"bounds": {"partials": 3}}, "thorough": {"bounds": {"partials": 4}}},
    {"name": "VerifH17SumReducer", "quick": {"bounds": {"partials": 3}}},
  ]},
+ "C18": {"package": ".", "harnesses": [
+   {"name": "VerifH18HourView", "common": {"max_depth": 3000}, "quick": {"bounds": {"days": 2}}, "thorough": {"bounds": {"days": 3}}},
+ ]},
  "C19": {"package": ".", "harnesses": [
    {"name": "VerifH19ClearBit", "common": {"max_depth": 3000}, "quick": {"bounds": {"quanta": 10, "instants": 3}}, "thorough": {"bounds": {"quanta": 10, "instants": 5}}},
  ]},
@@ -78,11 +81,18 @@ INDEX = {
  "C21": {"package": ".", "harnesses": [
    {"name": "VerifH21FragSources", "common": {"max_depth": 3000}, "quick": {"bounds": {"nodes": 1, "replicas": 2, "shards": 2}}, "thorough": {"bounds": {"nodes": 2, "replicas": 2, "shards": 3}}},
  ]},
+ "C22": {"package": ".", "harnesses": [
+   {"name": "VerifH22Completions", "common": {"max_depth": 3000}, "quick": {"bounds": {"messages": 3}}},
+ ]},
  "C23": {"package": ".", "harnesses": [
    {"name": "VerifH23Gate", "common": {"max_depth": 3000}, "quick": {"bounds": {}}},
  ]},
  "C24": {"package": ".", "harnesses": [
    {"name": "VerifH24Translate", "common": {"max_depth": 3000}, "quick": {"bounds": {"keys": 3, "keylen": 1, "smalltable": 1, "batches": 2, "xxhash_values": 3}}, "thorough": {"bounds": {"keys": 4, "keylen": 1, "smalltable": 1, "batches": 2, "xxhash_values": 4}, "max_paths": 600000}},
+ ]},
+ "C25": {"package": ".", "harnesses": [
+   {"name": "VerifH25BlockDiff", "common": {"max_depth": 3000}, "quick": {"bounds": {"blocks": 2}}, "thorough": {"bounds": {"blocks": 3}}},
+   {"name": "VerifH25AttrCodec", "common": {"max_depth": 3000}, "quick": {"bounds": {}}},
  ]},
  "C26": {"package": "./pql", "harnesses": [
    {"name": "VerifH26ParseConcrete", "quick": {"bounds": {}}},
